@@ -147,6 +147,7 @@ type runner struct {
 	stackISS map[int]uint32
 	haveISS  map[int]bool
 	peerISS  map[int]uint32
+	lastSyn  map[int]uint32 // sequence number of the last SYN sent per peer index
 	notIdle  int
 }
 
@@ -178,18 +179,17 @@ func (r *runner) ppOf(port int) int {
 // settle waits for quiescence (see file comment) and logs it.
 func (r *runner) settle(logit bool) bool {
 	ok := false
-	for i := 0; i < 400000; i++ {
-		e0 := atomic.LoadInt64(&r.emits)
+	for i := 0; i < 200000; i++ {
+		// let every runnable goroutine run until it parks, then look: if all of them are parked
+		// nothing can happen any more without a new frame, an API call or a timer
 		runtime.Gosched()
-		if othersParked() && atomic.LoadInt64(&r.emits) == e0 {
-			runtime.Gosched()
-			if othersParked() && atomic.LoadInt64(&r.emits) == e0 {
-				ok = true
-				break
-			}
+		runtime.Gosched()
+		if othersParked() {
+			ok = true
+			break
 		}
-		if i > 20 {
-			time.Sleep(50 * time.Microsecond)
+		if i > 50 {
+			time.Sleep(20 * time.Microsecond)
 		}
 	}
 	if !ok {
@@ -373,10 +373,37 @@ func (r *runner) send(st M) {
 		}
 	}
 	r.log(ev)
+	if flagsOf(flags)&wire.SYN != 0 {
+		r.lastSyn[pp] = seq
+	}
+	r.inject(l4)
+}
+
+func (r *runner) inject(l4 []byte) {
 	if r.sc.V == 6 {
 		r.link.Inject(wire.ProtoIPv6, wire.BuildIPv6(r.paddr, r.saddr, 6, l4, 64), "")
 	} else {
 		r.link.Inject(wire.ProtoIPv4, wire.BuildIPv4(r.paddr, r.saddr, 6, l4, wire.IPv4Opts{ID: 1}), "")
+	}
+}
+
+// kill resets a connection the scenario leaves behind (so that no goroutine of it lingers with
+// retransmission timers): a RST exactly at the endpoint's RCV.NXT.
+func (r *runner) kill(ep tcpip.Endpoint) {
+	ra, e1 := ep.GetRemoteAddress()
+	la, e2 := ep.GetLocalAddress()
+	if e1 != nil || e2 != nil {
+		return
+	}
+	for i := 0; i < 1000; i++ {
+		st, ok := tcp.VerifState(ep)
+		if ok {
+			if st.State == 4 {
+				r.inject(wire.BuildTCP(r.paddr, r.saddr, wire.TCPFields{SrcPort: ra.Port, DstPort: la.Port, Seq: st.RcvNxt, Flags: wire.RST, Window: 0}, nil))
+			}
+			return
+		}
+		runtime.Gosched()
 	}
 }
 
@@ -447,6 +474,21 @@ func (r *runner) step(st M) {
 		r.settle(true)
 	case "settle":
 		r.settle(true)
+	case "retarget":
+		// passive-side ISS placement: the stack's ISS is linear in the peer's (cookie = hash + irs + ...), so after a
+		// throw-away SYN showed iss0 for irs0 the peer picks irs = irs0 + (target - iss0) and the next SYN-ACK carries `target`
+		pp := geti(st, "pp", 0)
+		t := vh.Ints(st["iss"])
+		target := uint32(t[0])<<16 | uint32(t[1])
+		r.mu.Lock()
+		ok := r.haveISS[pp]
+		if ok {
+			r.peerISS[pp] = r.peerISS[pp] + (target - r.stackISS[pp])
+			r.haveISS[pp] = false
+		}
+		np := r.peerISS[pp]
+		r.mu.Unlock()
+		r.log(M{"ev": "retarget", "pp": pp, "ok": ok, "peerhi": int(np >> 16), "peerlo": int(np & 0xffff)})
 	case "accept":
 		if r.lep == nil {
 			vh.Fatal("accept without listener")
@@ -520,7 +562,7 @@ func runScenario(si int, sc scenario, tr *vh.Trace) int {
 		mtu = 1500
 	}
 	h := wire.NewHost(clock, "s", []wire.NICSpec{{ID: 1, MTU: uint32(mtu), Addr4: []string{"10.0.0.1"}, Addr6: []string{"fd00::1"}}})
-	r := &runner{sc: sc, h: h, link: h.Links[1], conns: map[int]tcpip.Endpoint{}, stackISS: map[int]uint32{}, haveISS: map[int]bool{}, peerISS: map[int]uint32{}}
+	r := &runner{sc: sc, h: h, link: h.Links[1], conns: map[int]tcpip.Endpoint{}, stackISS: map[int]uint32{}, haveISS: map[int]bool{}, peerISS: map[int]uint32{}, lastSyn: map[int]uint32{}}
 	r.np, r.saddr, r.paddr = wire.ProtoIPv4, []byte(wire.A4("10.0.0.1")), []byte(wire.A4("10.0.0.9"))
 	if sc.V == 6 {
 		r.np, r.saddr, r.paddr = wire.ProtoIPv6, []byte(wire.A6("fd00::1")), []byte(wire.A6("fd00::9"))
@@ -547,18 +589,41 @@ func runScenario(si int, sc scenario, tr *vh.Trace) int {
 		r.step(st)
 	}
 	r.log(M{"ev": "end", "notidle": r.notIdle})
+	// tear down without leaving goroutines / timers behind: reset half-open and established
+	// connections from the peer side, drain the accept queue, close, wait for quiescence
 	r.link.OnEmit = nil
+	eps := []tcpip.Endpoint{}
 	for _, ep := range r.conns {
-		ep.Close()
+		eps = append(eps, ep)
+	}
+	if r.lep != nil {
+		for pp, sq := range r.lastSyn {
+			r.inject(wire.BuildTCP(r.paddr, r.saddr, wire.TCPFields{SrcPort: uint16(r.peerPort(pp)), DstPort: uint16(r.sport), Seq: sq + 1, Flags: wire.RST}, nil))
+		}
+		r.settle(false)
+		for i := 0; i < 64; i++ {
+			ep, _, err := r.lep.Accept()
+			if err != nil {
+				break
+			}
+			eps = append(eps, ep)
+		}
+		r.settle(false)
 	}
 	if r.aep != nil {
-		r.aep.Close()
+		eps = append(eps, r.aep)
+	}
+	for _, ep := range eps {
+		r.kill(ep)
+	}
+	r.settle(false)
+	for _, ep := range eps {
+		ep.Close()
 	}
 	if r.lep != nil {
 		r.lep.Close()
 	}
 	tcp.SynRcvdCountThreshold = 1000
-	// let the closed endpoints' goroutines finish before the next scenario starts
 	r.settle(false)
 	for _, e := range r.evs {
 		tr.Log(e)
@@ -568,6 +633,9 @@ func runScenario(si int, sc scenario, tr *vh.Trace) int {
 
 func main() {
 	vh.Quiet()
+	if os.Getenv("GOMAXPROCS") == "" {
+		runtime.GOMAXPROCS(1) // quiescence detection stops the world: keep that cheap on a shared machine
+	}
 	if len(os.Args) < 4 || os.Args[1] != "run" {
 		vh.Fatal("usage: hsd run scenarios.json out.ndjson")
 	}
